@@ -163,6 +163,27 @@ mut("c10-hoisted-parts-not-spliced", "C10", "C10.R1", (PA, "            State::H
 mut("c10-closer-prefix-match", "C10", "C10.R2", (PA, ".any(|parent_el| parent_el.name == pair_name)", ".any(|parent_el| parent_el.name.starts_with(pair_name))"))
 mut("c10-parse-starts-at-one", "C10", "C10.R1", (PA, "    tree(tokens, 0, &mut content_parts, vec![]);", "    tree(tokens, 1, &mut content_parts, vec![]);"))
 
+# ---------------------------------------------------------------- C12
+mut("c12-dedent-plain-subtraction", "C12", "C12.R2", (BI, "first_indent_len.saturating_sub(indent_ofs)", "first_indent_len - indent_ofs"))
+mut("c12-dedent-wrapping", "C12", "C12.R2", (BI, "first_indent_len.saturating_sub(indent_ofs)", "first_indent_len.wrapping_sub(indent_ofs)"))
+mut("c12-byte0-exit-before-check", "C12", "C12.R3", (LB, "        if cursor >= bytes.len() {\n            break None;\n        }\n\n        match check(content, bytes, &cursor) {\n            CheckResult::Skip => {}\n            CheckResult::Found => break Some(cursor),\n            CheckResult::None => {\n                if pause_on_char {\n                    break None;\n                }\n            }\n        }\n\n        if cursor == 0 {\n            break None;\n        }", "        if cursor >= bytes.len() || cursor == 0 {\n            break None;\n        }\n\n        match check(content, bytes, &cursor) {\n            CheckResult::Skip => {}\n            CheckResult::Found => break Some(cursor),\n            CheckResult::None => {\n                if pause_on_char {\n                    break None;\n                }\n            }\n        }"))
+mut("c12-splice-without-rebase", "C12", "C12.R4", (RM, """                    acc.extend(child_markers[start_cursor..end_cursor].iter().map(
+                        |(range, pair)| {
+                            let pair = match pair {
+                                Some(p) if start_cursor <= *p && *p < end_cursor => {
+                                    Some(*p - start_cursor + current + 1)
+                                }
+                                _ => None,
+                            };
+                            (range.clone(), pair)
+                        },
+                    ));""", "                    acc.extend(child_markers[start_cursor..end_cursor].to_owned());"))
+mut("c12-rebase-off-by-one", "C12", "C12.R4", (RM, "Some(*p - start_cursor + current + 1)", "Some(*p - start_cursor + current)"))
+mut("c12-rebase-unguarded-upper", "C12", "C12.R4", (RM, "Some(p) if start_cursor <= *p && *p < end_cursor => {", "Some(p) if start_cursor <= *p => {"))
+mut("c12-tail-index-absolute", "C12", "C12.R4", (RM, "acc.push((end_marker, Some(current)));", "acc.push((end_marker, Some(0)));"))
+mut("c12-head-index-ignores-children", "C12", "C12.R4", (RM, "acc.push((marker, Some(current + (end_cursor - start_cursor) + 1)));", "acc.push((marker, Some(current + 1)));"))
+mut("c12-dedent-end-unclamped", "C12", "C12.R1", (BI, "let end = std::cmp::min(start + indent_len, indent_pos);", "let end = start + indent_len;"))
+
 # ---------------------------------------------------------------- benign variants (every rule silent)
 benign("b-c05-single-expression", (TL, "if self.current_time < expires.unwrap() {\n            return false;\n        }\n\n        true", "self.current_time >= expires.unwrap()"))
 benign("b-c05-format-shorthand", (TL, 'parse_from_str(&expires_str, "%Y-%m-%d %H:%M:%S %z")', 'parse_from_str(&expires_str, "%F %T %z")'))
